@@ -1,4 +1,4 @@
-(* name -> extracted entry point; one line per entry, no logic *)
+(* GENERATED: name -> extracted entry point; no logic *)
 open Model
 let table : (string * (sx -> sx)) list = [
   ("wal_run", wal_run);
